@@ -631,6 +631,12 @@ def run_pool_history(ops):
             if k == 'add_pool':
                 cfg = LivePoolConfig(FakeOptions('supervisor'), op[1], [getattr(events.EventTypes, t) for t in op[2]], registry)
                 results.append(sup.add_process_group(cfg))
+            elif k == 'remove_pool_refused':
+                # the pool's listener is still running: remove_process_group must refuse and change nothing
+                try:
+                    results.append(sup.remove_process_group(op[1]))
+                except KeyError:
+                    results.append('KeyError')
             elif k == 'remove_pool':
                 inc = [x for x in registry if x['name'] == op[1] and x['alive']]
                 if inc:
@@ -692,6 +698,9 @@ class AnsweringOptions(FakeOptions):
         room = getattr(self, 'room', {}).get(fd)
         if room is None:
             return FakeOptions.write(self, fd, data)
+        if room < 0:
+            import errno
+            raise OSError(errno.EPIPE, 'Broken pipe')      # the reader is gone
         if room <= 0:
             import errno
             raise OSError(errno.EAGAIN, 'Resource temporarily unavailable')
@@ -877,6 +886,10 @@ def run_listener_history(nlisteners, ops):
             elif k == 'reap':
                 with patched_time(5000.0):
                     procs[op[1]].finish(procs[op[1]].pid, 0)
+            elif k == 'epipe':
+                # the listener's child died (not reaped yet): writing to its stdin raises EPIPE
+                opts.room = getattr(opts, 'room', {})
+                opts.room[fds[op[1]][0]] = -1
             elif k == 'full':
                 # the listener does not read: its stdin pipe has no room left
                 opts.room = getattr(opts, 'room', {})
